@@ -59,15 +59,20 @@ def _mt(m):
     return tuple(tuple(int(v) for v in row) for row in np.asarray(m))
 
 
-def check_combo(ms, rs, pats, exist_objs, refs, combo, vseed, res, only=None):
-    """Checks one (encoder, imputer) combination; returns True if some vector was imputed"""
+def check_combo(ms, rs, pats, exist_objs, refs, combo, vseed, res, only=None, manager=None, n_sample=40):
+    """Checks one (encoder, imputer) combination; returns True if some vector was imputed.
+    If `manager` is given (C12), that assignment manager is judged instead of constructing one."""
     from adsg_core.optimization.assign_enc.patterns.encoder import InvalidPatternEncoder
     group, i_enc, i_imp, enc_f, imp_f = combo
     tag = f'{group}[{i_enc}]x[{i_imp}]'
     any_matrix = any(len(r) > 0 for r in refs)
     try:
-        settings, _, _ = matspec.to_settings(ms)
-        mgr, encoder = make_manager(settings, enc_f, imp_f)
+        if manager is not None:
+            mgr, encoder = manager, manager.encoder
+            # existence objects of the manager's own settings (equal by value to ours)
+        else:
+            settings, _, _ = matspec.to_settings(ms)
+            mgr, encoder = make_manager(settings, enc_f, imp_f)
         dvs = list(mgr.design_vars)
     except InvalidPatternEncoder:
         res.classes.append('pattern_encoder_not_applicable')
@@ -101,7 +106,7 @@ def check_combo(ms, rs, pats, exist_objs, refs, combo, vseed, res, only=None):
     if exhaustive:
         vectors = [list(x) for x in itertools.product(*[range(n) for n in n_opts])]
     else:
-        vectors = [[0]*n_dv, [n-1 for n in n_opts]]+lcg_vectors(meta, vseed, 40)
+        vectors = [[0]*n_dv, [n-1 for n in n_opts]]+lcg_vectors(meta, vseed, n_sample)
     # out-of-range and too-long variants
     extra = []
     if n_dv:
